@@ -1,6 +1,25 @@
 """C07: operands are evaluated exactly once, left to right; skipped operands never run."""
 import interpcheck
 
+PRE = "func z() { probe(\"z\"); return 1 }\n"
+EXPECT = [
+    {"src": PRE + "z(probe(1))", "field": "trace", "want": "", "finding": None,
+     "why": "a call with arguments to a function without parameters is rejected and evaluates nothing (it used to be accepted with the operand skipped)"},
+    {"src": PRE + "r = z(probe(1)) ?? \"rejected\"; r", "field": "result", "want": "s:72656a6563746564", "finding": None,
+     "why": "a call with arguments to a function without parameters is an error"},
+    {"src": PRE + "z([probe(1)]...)", "field": "trace", "want": "(i:1);(s:7a)", "finding": "spread-into-noparam-skips-operands",
+     "why": "a spread call of a function without parameters neither rejects the call nor evaluates its operands"},
+    {"src": "func s2(a, b) { return b }\ns2(probe(1))", "field": "trace", "want": "", "finding": None,
+     "why": "a call rejected for a wrong argument count evaluates no operand"},
+    {"src": "probe2(probe(1))", "field": "trace", "want": "", "finding": None,
+     "why": "a Go function call rejected for a wrong argument count evaluates no operand"},
+    {"src": "x = probe(1) || probe(2); y = probe(0) && probe(3); z = true ? probe(4) : probe(5); w = probe(6) ?? probe(7)",
+     "field": "trace", "want": "(i:1);(i:0);(i:4);(i:6)", "finding": None, "why": "short-circuit operators evaluate only what the result depends on"},
+    {"src": "func s3(a, b, c) { return a }\ns3(probe(1), probe(2), probe(3)); [probe(4), probe(5)]; {probe(6): probe(7)}",
+     "field": "trace", "want": "(i:1);(i:2);(i:3);(i:4);(i:5);(i:6);(i:7)", "finding": None, "why": "left to right, once"},
+]
+
+
 def run(tier, seed, replay=None):
     return interpcheck.run_interp_check(
         "C07", "c07", ("trace", "result"), {"quick": 6000, "thorough": 200000}, tier, seed,
@@ -9,4 +28,4 @@ def run(tier, seed, replay=None):
              "counts, spread calls into fixed and variadic functions, host functions fixed/variadic/spread, defer, array and map "
              "literals, binary operators, && || ?: ??, index and slice operands, return lists, multi-assignment; plus random "
              "programs; compared: the ordered probe log and the result; non-trivial = distinct source with a non-empty log",
-        design_ref="DESIGN.md §4 C07")
+        design_ref="DESIGN.md §4 C07", expectations=EXPECT)
